@@ -1,0 +1,117 @@
+//go:build verif
+
+// Contracts for the persistence protocol: PeriodicSyncer over the
+// PersistentStateSource / PersistentStateStore interfaces (properties C02,
+// C03, C07). Comment-only file.
+package local
+
+// ---- ghost protocol state
+// dataSyncs        number of data synchronisations that have succeeded so far
+// stateWrites      number of state-file writes that have succeeded so far
+// startMark(src)   value of dataSyncs when NotifySyncStarting was last called
+// getMark(src)     value of stateWrites when GetPersistentState was last called
+// nStarted(src), nCompleted(src)   calls made to NotifySyncStarting / Completed
+// nWritten(src)    calls made to NotifyPersistentStateWritten
+// closedW(src)     the source has been closed for writing (final sync begun)
+//@ ghost dataSyncs int
+//@ ghost stateWrites int
+//@ ghost startMark(ref) int
+//@ ghost getMark(ref) int
+//@ ghost nStarted(ref) int
+//@ ghost nCompleted(ref) int
+//@ ghost nWritten(ref) int
+//@ ghost closedW(ref) bool
+
+//@ iface DataSyncer.call
+//@   modifies dataSyncs
+//@   ensures err == nil ==> dataSyncs == old(dataSyncs) + 1
+//@   ensures err != nil ==> dataSyncs == old(dataSyncs)
+
+//@ iface PersistentStateStore.WritePersistentState
+//@   modifies stateWrites
+//@   ensures err == nil ==> stateWrites == old(stateWrites) + 1
+//@   ensures err != nil ==> stateWrites == old(stateWrites)
+
+//@ iface PersistentStateSource.GetBlockReleaseWakeup
+//@   requires [locked] held(guard(self)) >= 1
+//@ iface PersistentStateSource.GetBlockPutWakeup
+//@   requires [locked] held(guard(self)) >= 1
+
+// Epochs and offsets may be exposed only after the data they cover is durable:
+// NotifySyncCompleted needs a data sync that succeeded after the matching
+// NotifySyncStarting.
+//@ iface PersistentStateSource.NotifySyncStarting
+//@   requires [write-locked] held(guard(self)) == 2
+//@   modifies startMark(self), nStarted(self), closedW(self)
+//@   ensures startMark(self) == dataSyncs && nStarted(self) == old(nStarted(self)) + 1
+//@   ensures closedW(self) <==> (old(closedW(self)) || isFinalSync)
+//@ iface PersistentStateSource.NotifySyncCompleted
+//@   requires [write-locked] held(guard(self)) == 2
+//@   requires [data-durable-first] dataSyncs > startMark(self) && nStarted(self) > nCompleted(self)
+//@   modifies nCompleted(self)
+//@   ensures nCompleted(self) == old(nCompleted(self)) + 1
+
+// Blocks may be released only after a state file that was produced from a
+// state obtained earlier has been written durably.
+//@ iface PersistentStateSource.GetPersistentState
+//@   requires [locked] held(guard(self)) >= 1
+//@   modifies getMark(self)
+//@   ensures getMark(self) == stateWrites
+//@ iface PersistentStateSource.NotifyPersistentStateWritten
+//@   requires [write-locked] held(guard(self)) == 2
+//@   requires [state-durable-first] stateWrites > getMark(self)
+//@   modifies nWritten(self)
+//@   ensures nWritten(self) == old(nWritten(self)) + 1
+
+// ---- PeriodicSyncer
+//@ pure psInv(ps) = ps.sourceLock != nil && guard(ps.source) == ps.sourceLock && ps.source != nil && ps.store != nil
+//@     && ps.dataSyncer != nil && ps.clock != nil && ps.errorLogger != nil
+//@ pure psUnlocked(ps) = held(ps.sourceLock) == 0 && held(ps.storeLock) == 0
+
+//@ func (*PeriodicSyncer).logErrorAndSleep
+//@   requires ps.clock != nil && ps.errorLogger != nil
+//@   modifies nothing
+
+// One attempt to write the state: serialised by storeLock, state taken under
+// the read lock, release notification only after a successful write.
+//@ func (*PeriodicSyncer).writePersistentState
+//@   requires psInv(ps) && psUnlocked(ps)
+//@   modifies stateWrites, getMark(ps.source), nWritten(ps.source)
+//@   ensures [written-iff-nil] (err == nil) <==> stateWrites == old(stateWrites) + 1
+//@   ensures [not-written-on-error] err != nil ==> stateWrites == old(stateWrites) && nWritten(ps.source) == old(nWritten(ps.source))
+//@   ensures [notified-once] err == nil ==> nWritten(ps.source) == old(nWritten(ps.source)) + 1
+
+// Retries until a write has succeeded (exits only on success).
+//@ func (*PeriodicSyncer).writePersistentStateRetrying
+//@   requires psInv(ps) && psUnlocked(ps)
+//@   modifies stateWrites, getMark(ps.source), nWritten(ps.source)
+//@   ensures [written] stateWrites >= old(stateWrites) + 1 && nWritten(ps.source) >= old(nWritten(ps.source)) + 1
+//@   loop 0 invariant psUnlocked(ps) && stateWrites == old(stateWrites) && nWritten(ps.source) == old(nWritten(ps.source))
+//@   loop 0 invariant forall x :: held(x) == old(held(x))
+
+//@ func (*PeriodicSyncer).ProcessBlockRelease
+//@   requires psInv(ps) && psUnlocked(ps)
+//@   ensures [state-rewritten] stateWrites >= old(stateWrites) + 1
+
+// Called and returns with the write lock held; drops it while the data is
+// synchronised; retries until the data sync has succeeded.
+//@ func (*PeriodicSyncer).notifyAndSyncDataLocked
+//@   requires psInv(ps) && held(ps.sourceLock) == 2 && held(ps.storeLock) == 0 && nStarted(ps.source) == nCompleted(ps.source)
+//@   modifies dataSyncs, startMark(ps.source), nStarted(ps.source), nCompleted(ps.source), closedW(ps.source)
+//@   ensures [completed] nCompleted(ps.source) == old(nCompleted(ps.source)) + 1 && nStarted(ps.source) == nCompleted(ps.source)
+//@   ensures [closed] closedW(ps.source) <==> (old(closedW(ps.source)) || isFinalSync)
+//@   ensures [synced] dataSyncs >= old(dataSyncs) + 1
+//@   loop 0 invariant held(ps.sourceLock) == 0 && held(ps.storeLock) == 0 && dataSyncs == startMark(ps.source)
+//@   loop 0 invariant nStarted(ps.source) == old(nStarted(ps.source)) + 1 && nCompleted(ps.source) == old(nCompleted(ps.source))
+//@   loop 0 invariant (closedW(ps.source) <==> (old(closedW(ps.source)) || isFinalSync)) && dataSyncs >= old(dataSyncs)
+//@   loop 0 invariant forall x :: x != ps.sourceLock ==> held(x) == old(held(x))
+
+// One round of the put loop. When it reports that the loop should stop
+// (graceful shutdown), the store has been closed for writing, two data syncs
+// have completed and the state has been written afterwards (C03); in any case
+// a data sync followed by a state write has taken place (C02, C07).
+//@ func (*PeriodicSyncer).ProcessBlockPut
+//@   requires psInv(ps) && psUnlocked(ps) && nStarted(ps.source) == nCompleted(ps.source)
+//@   ensures [synced-then-written] nCompleted(ps.source) >= old(nCompleted(ps.source)) + 1 && stateWrites >= old(stateWrites) + 1
+//@   ensures [shutdown-closes] !result ==> closedW(ps.source) && nCompleted(ps.source) >= old(nCompleted(ps.source)) + 2
+//@   ensures [keeps-open] result ==> (closedW(ps.source) <==> old(closedW(ps.source)))
